@@ -70,7 +70,7 @@ def labels_in(lines, pid):
     s = []
     for l in lines:
         for lab in (l.label or "").split(","):
-            if lab.startswith(pid + ".") and lab not in s:
+            if lab.startswith(pid + ".") and lab not in s and not lab.endswith("~hint"):
                 s.append(lab)
     return s
 
